@@ -25,12 +25,12 @@ const (
 )
 
 type SExpr struct {
-	K    SKind
-	Op   string // operator, identifier, literal text, "forall"/"exists"
+	K       SKind
+	Op      string // operator, identifier, literal text, "forall"/"exists"
 	X, Y, Z *SExpr
-	Args []*SExpr
-	Vars []QVar // quantifier variables
-	Pos  int
+	Args    []*SExpr
+	Vars    []QVar // quantifier variables
+	Pos     int
 }
 
 type QVar struct {
